@@ -20,7 +20,16 @@
    "Json::stripComments removes exactly the // and /* */ comments outside string literals and leaves
     every other byte and every line break unchanged"
         -> stripComments_is_reference (+ stripComments_keeps_every_line_break,
-                                         stripComments_identity_without_slash)
+                                         stripComments_identity_without_slash); the text of a String is
+           what precedes its first 0 byte (cstr), as for the code which reads the String as a C string
+        -> stripComments_memory_safe, stripComments_never_longer (the raw `*(dest++)` writes into
+           `String result(data.length())` and the reads src[1] / end[1] stay inside their buffers)
+
+   One Parser object for several texts, a target that already holds a value, the static wrappers
+   (the property speaks of Json::parse as a function of the text):
+        -> parser_reuse_is_fresh_parse, parser_history_is_fresh_parses, second_parse_error_inside_second_text,
+           parser_error_fields, static_parse_is_parse; parse_without_clear_keeps_target_content records
+           what the code did before repair 06 (`result.clear()`)
 
    Beyond the property text (the tokenizer layer: escapes, \u, surrogate pairs -> UTF-8):
         -> string_token_is_rfc8259, parse_string_literal_rfc8259, unicode_append_is_rfc3629,
@@ -30,7 +39,7 @@
    sscanf("%x") on four hex digits = positional value, strpbrk = find_one_of.  Doubles are outside the
    property (kept as opaque text).  *)
 From Coq Require Import ZArith List Bool.
-From Json Require Import JsonSpec JsonModel JsonProofsBase JsonProofsTotal JsonProofsStrip JsonProofsRound JsonProofsRfc.
+From Json Require Import JsonSpec JsonModel JsonProofsBase JsonProofsTotal JsonProofsStrip JsonProofsRound JsonProofsRfc JsonProofsReuse.
 Import ListNotations.
 Local Open Scope Z_scope.
 
@@ -115,20 +124,69 @@ Theorem parse_value_fuel_from_any_state :
 Proof. exact parse_value_fuel. Qed.
 Print Assumptions parse_value_fuel_from_any_state.
 
+(* ---- one Parser object, several texts; a target that holds a value; the static wrappers ---- *)
+Theorem parser_reuse_is_fresh_parse :
+  forall (o : parser) (target : value) (s : list Z), snd (parse_with o target s) = parse s.
+Proof. exact parse_with_result. Qed.
+Print Assumptions parser_reuse_is_fresh_parse.
+
+Theorem parser_history_is_fresh_parses :
+  forall (calls : list (value * list Z)) (o : parser), run_parses o calls = map (fun c => parse (snd c)) calls.
+Proof. exact run_parses_fresh. Qed.
+Print Assumptions parser_history_is_fresh_parses.
+
+Theorem second_parse_error_inside_second_text :
+  forall o tgt1 s1 tgt2 s2 l c m,
+    snd (parse_with (fst (parse_with o tgt1 s1)) tgt2 s2) = PErr l c m -> position_inside s2 l c.
+Proof. exact JsonProofsReuse.second_parse_error_inside_second_text. Qed.
+Print Assumptions second_parse_error_inside_second_text.
+
+Theorem parser_error_fields :
+  forall o tgt s,
+    match parse s with
+    | PErr l c m => o_err (fst (parse_with o tgt s)) = Some (l, c, m)
+    | _ => o_err (fst (parse_with o tgt s)) = o_err o
+    end.
+Proof. exact parse_with_error_fields. Qed.
+Print Assumptions parser_error_fields.
+
+Theorem static_parse_is_parse : forall garbage target s, static_parse garbage target s = parse s.
+Proof. exact static_parse_result. Qed.
+Print Assumptions static_parse_is_parse.
+
+Theorem parse_without_clear_keeps_target_content :
+  snd (parse_obj false (mkParser 0 None) (JList [JInt 0]) [91; 49; 93]) = POk (JList [JInt 0; JInt 1]) /\
+  parse [91; 49; 93] = POk (JList [JInt 1]).
+Proof. exact JsonProofsReuse.parse_without_clear_keeps_target_content. Qed.
+Print Assumptions parse_without_clear_keeps_target_content.
+
 (* ---- stripComments ---- *)
-Theorem stripComments_is_reference : forall s : list Z, strip_comments s = reference_strip s.
+Theorem stripComments_is_reference : forall s : list Z, strip_comments s = reference_strip (cstr s).
 Proof. exact strip_comments_is_reference. Qed.
 Print Assumptions stripComments_is_reference.
 
+Theorem stripComments_is_reference_nulfree : forall s : list Z, ~ In 0 s -> strip_comments s = reference_strip s.
+Proof. exact strip_comments_is_reference_nulfree. Qed.
+Print Assumptions stripComments_is_reference_nulfree.
+
 Theorem stripComments_keeps_every_line_break :
-  forall s : list Z, filter brk (strip_comments s) = filter brk s.
+  forall s : list Z, filter brk (strip_comments s) = filter brk (cstr s).
 Proof. exact strip_keeps_line_breaks. Qed.
 Print Assumptions stripComments_keeps_every_line_break.
 
 Theorem stripComments_identity_without_slash :
-  forall s : list Z, ~ In 47 s -> strip_comments s = s.
+  forall s : list Z, ~ In 47 s -> strip_comments s = cstr s.
 Proof. exact strip_no_slash_identity. Qed.
 Print Assumptions stripComments_identity_without_slash.
+
+Theorem stripComments_memory_safe : forall s : list Z, strip_comments_chk s = Ok (strip_comments s).
+Proof. exact strip_comments_chk_ok. Qed.
+Print Assumptions stripComments_memory_safe.
+
+Theorem stripComments_never_longer :
+  forall s : list Z, (length (strip_comments s) <= length (cstr s) <= length s)%nat.
+Proof. exact (fun s => conj (strip_comments_length s) (cstr_length s)). Qed.
+Print Assumptions stripComments_never_longer.
 
 (* ---- non-vacuity ---- *)
 (* an object with key a holding the list of 1 and a string with the escapes for LF and U+00E9:
@@ -187,4 +245,17 @@ Proof. vm_compute. reflexivity. Qed.
    literal (repair 04) *)
 Example ex_strip_escape :
   strip_comments [34;120;92;34;47;47;121;34;32;47;47;32;99] = [34;120;92;34;47;47;121;34;32].
+Proof. vm_compute. reflexivity. Qed.
+
+(* a String with an embedded 0 byte: the code reads it as a C string, so does the model *)
+Example ex_strip_nul : strip_comments [97;47;47;98;10;99;0;47;47;100] = [97;10;99]
+                       /\ strip_comments_chk [97;47;47;98;10;99;0;47;47;100] = Ok [97;10;99].
+Proof. vm_compute. split; reflexivity. Qed.
+(* the checked machine does report an access outside the buffers: a destination one byte too small *)
+Example ex_strip_chk_detects : strip_main_chk 1 9 0 [97;98;99] [] = OutOfBounds.
+Proof. vm_compute. reflexivity. Qed.
+(* one Parser object: a text that fails on line 3, then a text that fails on line 1 *)
+Example ex_parse_twice :
+  run_parses (mkParser 77 None) [(JNull, [10;10;91;49;32;50]); (JList [JInt 0], [120]); (JMap [([97], JNull)], [123;125])]
+  = [PErr 3 5 E_comma; PErr 1 1 E_char; POk (JMap [])].
 Proof. vm_compute. reflexivity. Qed.
